@@ -98,6 +98,8 @@ def worker(case):
                 L.append("P %s+latepin 0 %s l T%d D%s c h" % (ln[1], patch_str(ln[2]), p.hash_type, p.header_digest.hex().encode().hex()))
                 # a caller that clears the error and asks again
                 L.append("P %s+retry 0 %s l h c h c h" % (ln[1], patch_str(ln[2])))
+                # options set on the reading context before the open
+                L.append("P %s+ropt 0 %s U1 c l h" % (ln[1], patch_str(ln[2])))
                 # the patched image behind a pristine copy of the file in the same descriptor (positioned at the image), and through a pipe
                 L.append("P %s+off 0 %s Foff l h" % (ln[1], patch_str(ln[2])))
                 L.append("P %s+offo 0 %s Foff o" % (ln[1], patch_str(ln[2])))
@@ -130,7 +132,7 @@ def worker(case):
                 continue
             if t[0] == "S":
                 pos, val = int(t[2]), int(t[3])
-                mode = ["init_read", "lead+header", "pinned", "pinned-after-lead", "retried-after-clear-error"][int(t[4])] if len(t) > 4 else "init_read"
+                mode = ["init_read", "lead+header", "pinned", "pinned-after-lead", "retried-after-clear-error", "reader-options-set"][int(t[4])] if len(t) > 4 else "init_read"
                 reg = region_of(p, pos)
                 viols.append(("c06:opened-with-substituted-byte:%s%s" % (reg, "" if mode == "init_read" else ":" + mode), "byte %d (%s) %#x -> %#x still opens (%s)" % (pos, reg, data[pos], val, mode)))
             elif t[0] == "XEND":
@@ -143,13 +145,15 @@ def worker(case):
                 rc = 1 if all(x == 1 for x in rcs) else 0   # "+pin": the two setters get genuine values and succeed
                 if how == "latepin":
                     rc = 1 if (rcs[0] == 1 and rcs[-1] == 1) else 0   # lead and header read; what the late setters say is their business
+                if how == "ropt":
+                    rc = 1 if (rcs[2] == 1 and rcs[3] == 1) else 0   # what the option setter says is its business
                 if how == "retry":
                     rc = 1 if (rcs[0] == 1 and 1 in (rcs[1], rcs[3], rcs[5])) else 0   # the lead was read and one of the three header attempts succeeded
                 stats["evaluations"] += 1
                 stats["opens_" + (how or "init_read")] = stats.get("opens_" + (how or "init_read"), 0) + 1
                 img = apply_patches(data, ln[2])
                 kind = ln[3] + (":" + {"adv": "lead+header", "pin": "pinned", "latepin": "pinned-after-lead", "off": "behind-a-pristine-copy", "offo": "behind-a-pristine-copy:init_read",
-                                       "pipe": "through-a-pipe", "retry": "retried-after-clear-error"}[how] if how else "")
+                                       "pipe": "through-a-pipe", "retry": "retried-after-clear-error", "ropt": "reader-options-set"}[how] if how else "")
                 refok = ref_header_ok(img)
                 same_header = img[5:p.header_len] == data[5:p.header_len] and img[:5] in (zckref.MAGIC_FULL, zckref.MAGIC_HDR) and len(img) >= p.header_len
                 if rc == 1 and not refok:
@@ -182,7 +186,7 @@ class C06(core.Check):
     rule = ("sample files (library- and reference-written; 4 lead checksum types, flags, dict/no dict, optional elements, detached headers) x EVERY header "
             "position x all 255 other byte values, on the OpenSSL build and - for headers whose hashed length sweeps the SHA block sizes - on the bundled-SHA build; EVERY header "
             "position x all 255 other byte values through zck_init_read (exhaustive); the same through the two other ways of opening (zck_read_lead + zck_read_header "
-            "step by step; the same with the header pinned to the file's genuine checksum before, or after, the lead is read; the same with every failing step followed by zck_clear_error and repeated up to three times; patched images also behind a pristine copy of the file in the same descriptor and through a pipe) for every lead byte of every sample and every header byte of the first "
+            "step by step; the same with the header pinned to the file's genuine checksum before, or after, the lead is read; the same with every failing step followed by zck_clear_error and repeated up to three times; the same with writer-side options (uncompressed-source flag, chunk hash type, manual chunking) set on the reading context first; patched images also behind a pristine copy of the file in the same descriptor and through a pipe) for every lead byte of every sample and every header byte of the first "
             "samples; plus patched images through all three ways: single-byte insertions/deletions with the header-size field adjusted, truncations inside the "
             "header, every integer field re-encoded in a longer form with the same value, stored-checksum transplants, identifier swap and untouched controls. "
             "distinct = (file, position) for substitutions, (file, patch) otherwise")
@@ -292,7 +296,7 @@ class C06(core.Check):
             # the other two ways of opening (lead + header step by step; header pinned to the genuine checksum): the lead of every sample,
             # the whole header of the first few (quick) / of all (thorough)
             full = (not self.quick) or self.counters.get("sample_files", 0) <= 3
-            for mode in (1, 2, 3, 4):
+            for mode in (1, 2, 3, 4, 5):
                 if full:
                     for lo in range(0, hl, step):
                         out.append({"base": s["name"], "data": core.b64(data), "bin": ctx["bin"], "lines": [["X", lo, min(hl, lo + step), mode]], "lines_id": "X%d/m%d" % (lo, mode)})
